@@ -1,6 +1,10 @@
 package kvql
 
-import "fmt"
+import (
+	"fmt"
+	"strconv"
+	"strings"
+)
 
 type ExpressionOptimizer struct {
 	Root   Expression
@@ -139,7 +143,7 @@ func (o *ExpressionOptimizer) tryOptimizeBinaryOpExecute(e *BinaryOpExpr) (Expre
 				case int64:
 					return &NumberExpr{Pos: leftPos, Data: fmt.Sprintf("%v", cret), Int: cret}, true
 				case float64:
-					return &FloatExpr{Pos: leftPos, Data: fmt.Sprintf("%v", cret), Float: cret}, true
+					return &FloatExpr{Pos: leftPos, Data: floatLiteral(cret), Float: cret}, true
 				}
 			}
 		}
@@ -278,7 +282,7 @@ func (o *ExpressionOptimizer) tryOptimizeFunctionCall(e *FunctionCallExpr) (Expr
 			}
 			fret, ok := ret.(float64)
 			if ok {
-				return &FloatExpr{Pos: e.GetPos(), Data: fmt.Sprintf("%v", ret), Float: fret}, true
+				return &FloatExpr{Pos: e.GetPos(), Data: floatLiteral(fret), Float: fret}, true
 			}
 		case TBOOL:
 			if ret.(bool) {
@@ -288,4 +292,15 @@ func (o *ExpressionOptimizer) tryOptimizeFunctionCall(e *FunctionCallExpr) (Expr
 		}
 	}
 	return e, false
+}
+
+// floatLiteral renders a folded float the way the lexer reads a float back:
+// without an exponent sign (1e+22 would be split at the +) and with a decimal
+// point (a whole value would be read back as an integer)
+func floatLiteral(f float64) string {
+	ret := strconv.FormatFloat(f, 'f', -1, 64)
+	if !strings.Contains(ret, ".") {
+		ret += ".0"
+	}
+	return ret
 }
